@@ -16,8 +16,9 @@ LEVEL = ('narrow: decides four code-shape facts two of whose violations were con
          'window). both chain searches of the generate-sequence variants end a chain on the same gap '
          'test (H8 SIBLINGS); the gap profile between two profiles is created iff the gap is non-empty'
          ' and covered by the update range (H9 TABLE); the cached profile explanation is reset per '
-         'profile (H10). Everything else about the 144 variants — in particular the numbers they '
-         'compute and zero-duration tasks — is NOT decided')
+         'profile (H10). the time point of a pointwise hole explanation lies in the profile and in the'
+         " task's run (H11 WITNESS-POINT, decided on a window). Everything else about the 144 variants"
+         ' — in particular the numbers they compute and zero-duration tasks — is NOT decided')
 TECHNIQUE = "static analysis: must-pass / sentinel taint / dominance rules over rustc MIR"
 
 
@@ -462,6 +463,84 @@ def h9(led, rid, ctx):
               "refute" % (bad or "fewer than three guards found"))
 
 
+def h11(led, rid, ctx):
+    """WITNESS-POINT: the time point a pointwise hole explanation is built for lies both inside the
+    profile and inside the run of the task when it starts at the removed value (decided on a window
+    over profile, processing time, bounds and removed value)"""
+    import itertools
+    from ..predalg import ev, Unknown
+    lib = ctx.lib
+    f = lib.method("CumulativePropagationHandler", "propagate_holes_in_domain")
+    R = resolver(f)
+    cs = f.calls_named("create_pointwise_propagation_explanation")
+    if not cs:
+        raise AnchorMissing("create_pointwise_propagation_explanation in propagate_holes_in_domain")
+    c = cs[0]
+    pt = R.operand(c.args[0])
+    alts = pt.a if pt.k == "phi" else [pt]
+    rngs = [x for x in pt.walk() if x.k == "call" and x.a.name == "new" and "RangeInclusive" in (x.a.target_def or "")]
+    if not rngs:
+        raise AnchorMissing("the inclusive range of removed time points")
+    lo_e, hi_e = rngs[0].b[0], rngs[0].b[1]
+    bad = None
+    n = 0
+    try:
+        for ps, ln, p, lb, w in itertools.product(range(0, 5), range(0, 4), range(1, 5), range(-3, 4), range(0, 6)):
+            pe, ub = ps + ln, lb + w
+
+            cur = {"t": None}
+
+            def base(x):
+                x = peel(x, calls=None)
+                if ((x.k == "proj" and any(cc.name == "next" for cc in x.calls())) or
+                        (x.k == "call" and x.a.name == "next")) and cur["t"] is not None:
+                    return cur["t"]
+                if x.k == "call" and x.a.name in ("max", "min") and len(x.b) == 2:
+                    a_, b_ = ev(x.b[0], base), ev(x.b[1], base)
+                    return max(a_, b_) if x.a.name == "max" else min(a_, b_)
+                if x.k == "call" and x.a.name == "lower_bound":
+                    return lb
+                if x.k == "call" and x.a.name == "upper_bound":
+                    return ub
+                if x.k == "proj":
+                    fl = list(x.fields())
+                    if fl and fl[-1] == "start":
+                        return ps
+                    if fl and fl[-1] == "end":
+                        return pe
+                    if fl and fl[-1] == "processing_time":
+                        return p
+                return None
+            cur["t"] = None
+            lo, hi = ev(lo_e, base), ev(hi_e, base)
+            for t in range(lo, hi + 1):
+                cur["t"] = t
+                leaf = base
+                vals = []
+                for a in alts:
+                    vals.append(ev(a, leaf))
+                # the alternative that is taken: `t` itself when t >= start, the computed point otherwise
+                is_t = lambda a: peel(a, calls=None).k == "proj" or (peel(a, calls=None).k == "call" and peel(a, calls=None).a.name == "next")
+                direct = [v for a, v in zip(alts, vals) if is_t(a)]
+                comp = [v for a, v in zip(alts, vals) if not is_t(a)]
+                q = (comp[0] if comp else vals[0]) if t < ps else (direct[0] if direct else vals[0])
+                n += 1
+                if not (t <= q <= t + p - 1 and ps <= q <= pe):
+                    bad = ("profile [%d, %d], processing time %d, removed start %d: the explanation is built "
+                           "for time %d, where the task would %s" %
+                           (ps, pe, p, t, q, "not be running" if not (t <= q <= t + p - 1) else "be outside the profile"))
+                    break
+            if bad:
+                break
+    except Unknown as u:
+        bad = "the explanation point is computed from %s, which the rule cannot evaluate" % u
+    led.check(bad is None and n > 0, rid, "pointwise-hole-explanation-point", c.span,
+              "inside the profile and inside the task's run on %d cases" % n,
+              "propagate_holes_in_domain (pointwise): %s — the facts of the reason hold but do not cover a time "
+              "point the task occupies, so they do not imply the removal and learned nogoods cut off solutions"
+              % bad)
+
+
 def h12(led, rid, ctx):
     """handler ⇔ registration for the cumulative propagators (instance of C01-S5)"""
     from .C01 import s5_propagator_events
@@ -481,3 +560,4 @@ def run(ctx, led):
     run_rule(led, "H9", "TABLE: the gap profile between two profiles is created iff the gap is non-empty and covered by the update range", h9, ctx)
     from . import C17 as _C17
     run_rule(led, "H10", "the cached profile explanation is reset whenever the profile changes (shared with C17-L12)", _C17.l12, ctx)
+    run_rule(led, "H11", "WITNESS-POINT of pointwise hole explanations lies in the profile and in the task's run", h11, ctx)
